@@ -22,6 +22,8 @@ THEOREMS = {
         "MG.C13.restore_inverts_duplicate",
         "MG.C13.mkDupGraph_no_views",
         "MG.C13.restore_inverts_mkDupGraph",
+        "MG.C13.duplicate_post",
+        "MG.C13.mkDupGraph_discards_family_grads",
     ],
 }
 
@@ -245,7 +247,10 @@ MANIFEST = {
             "the same for the functions _in_place_op actually calls: mkDupGraph (which first discards x's "
             "gradient) succeeds with a one-node graph (mkDupGraph_no_views) and DupGraph.restore of its result is "
             "exactly the heap of x.null_grad() (tensor that owns its memory, no live views; the forest case is "
-            "validated by correspondence). The model with failures is run against MyGrad; the "
+            "validated by correspondence); for any view forest, a successful DuplicatingGraph(base) leaves the base and "
+            "every view in the graph without a gradient and gives no tensor one (mkDupGraph_discards_family_grads, by "
+            "nested induction over the recursion and the loop over live view children), so the placeholder assertion "
+            "cannot fire half-way through the re-routing any more. The model with failures is run against MyGrad; the "
             "direct oracle snapshots all tensors around every failing statement, compares the final state and "
             "gradients with the program without the failing statements, and checks that no array stays locked.",
     "note": "Trusted: Lean kernel, standard axioms, correspondence harness. The target's own .grad is nulled before the attempt "
